@@ -87,6 +87,13 @@ CLAIMS.update({
                 technique="exhaustive enumeration of a signature family (gate) and of placements/histories (stub) on the real code"),
 })
 
+CLAIMS.update({
+    "C14": dict(engine=E3, ref="DESIGN.md §5 C14",
+                text="every sequence over {fake async function f with the checked or unchecked macros, drop injector, panic} up to the depth over a family of 8 sibling async functions (two with equal output type, &str->String, 128-byte by-memory output, unit, method, one that pends once, one with a drop-counted argument); after every operation every function is awaited twice under a poll-counting executor (directly, nested in an outer async fn, on a second OS thread): faked functions complete on poll 1 with a value evaluated freshly in that await and without running the body, all others behave as originally, and everything is original again after the lifetime",
+                note="bounded by depth and family; histories are replayed on the unmodified crate",
+                technique="exhaustive enumeration of operation sequences up to a depth on the real code against a reference model"),
+})
+
 PENDING = {
     "C01": "engine E1", "C04": "engine E2", "C05": "engine E3/E2", "C06": "engine E3/E2", "C07": "engine E3",
     "C08": "engine E4", "C09": "engine E4", "C10": "engine E4/E1", "C11": "engine E1", "C13": "engine E1",
